@@ -813,6 +813,12 @@ func randSetValue(r *rand.Rand, scalarOnly bool, rich bool) (*Node, string) {
 	return v, mode
 }
 
+// avoidSharedSet: while the finding "multi-location-container-set" is open the
+// clean stream does not store container values through wildcard paths and a
+// history ends after such a step (outside the probe block). Set to false once
+// bag-set gives every match a value of its own.
+const avoidSharedSet = true
+
 func randHistory(r *rand.Rand, doc *Node, n int, rich bool, dirty bool) []Op {
 	ops := make([]Op, 0, n)
 	// the model is stepped while generating so that later paths refer to the
@@ -826,7 +832,7 @@ func randHistory(r *rand.Rand, doc *Node, n int, rich bool, dirty bool) []Op {
 			op.Path = randPath(r, cur, dirty)
 			// avoided (finding "multi-location-container-set"): a container
 			// value stored through a wildcard ends up shared by all matches
-			op.Val, op.ValMode = randSetValue(r, op.Path.hasDescent() || (!dirty && !op.Path.definite()), rich)
+			op.Val, op.ValMode = randSetValue(r, op.Path.hasDescent() || (avoidSharedSet && !dirty && !op.Path.definite()), rich)
 			if op.ValMode == "text" || op.ValMode == "stream" {
 				op.Op = "parse"
 			}
